@@ -150,4 +150,27 @@ CLAIMS = {
         'note': 'Trusted: clang 14 CFG, tools/grfacts, rules/c04.py, rules/linksym.py, rules/dom.py, the tabled writer sets.',
         'technique': 'dominance-fact rules + symbolic execution of list primitives over an abstract heap + who-may-write tables',
     },
+    'C11': {
+        'text': 'Which scalar a sequence decodes to is a run-time value and is NOT decided.  Decided, for every byte / unit string: with a '
+                'buffer end, every decode in all three instantiations of the counting loop is dominated by a successful tail validation, '
+                'whose failure returns 0 with the error pointer inside the buffer, and the loop stops at the end, at NUL and at an error; '
+                'UTF-8 look-ahead reads a further byte only after the previous one passed the continuation test and UTF-16 reads the '
+                'second unit only after a high surrogate; on every path of every get() the step length handed to the iterator satisfies '
+                '1 <= |l| <= 1 + the number of further units that passed their test (constant propagation over the CFG), so no unvetted '
+                'unit -- in particular a terminating NUL -- is stepped over; a constant inequality over the lead-byte tables shows leads above '
+                'F4 are rejected through the limit test; the iterator advances by abs(l).',
+        'note': 'Trusted: clang 14 CFG and constant folder, tools/grfacts, rules/c11.py, rules/dom.py.',
+        'technique': 'CFG dominance / must-pass rules + constant propagation of the step length per path + constant-table inequality',
+    },
+    'C05': {
+        'text': 'Decoded code points and the coverage clause (every character lies in some slot range) are run-time facts and NOT decided.  '
+                'Decided: the one loop that creates char-infos and slots appends exactly one of each per iteration with the iteration counter '
+                'as id and the code-unit offset c - base; every one of the 20 call sites of the association setters takes a closed-form '
+                'argument (another slot\'s before/after/original, the default original, the tabled accumulators) so no arithmetic is done on '
+                'character indices; the char-info accessor keeps its bounds test; plus the shared rules: counts set from the characters '
+                'consumed (C12), iterator step bound (C11), no list mutation after slot numbering (C03).',
+        'note': 'Trusted: clang 14 CFG, tools/grfacts, rules/c05.py and the rules it shares.  The accumulators of ASSOC and associateChars are '
+                'tabled with reasons; associateChars\' range arithmetic itself is value-level.',
+        'technique': 'argument-provenance (closed-form) rule over resolved call sites + CFG path rules',
+    },
 }
